@@ -293,7 +293,7 @@ def grep_gate():
     return bad
 
 
-def coq_gate(prop_id, full=False):
+def coq_gate(prop_id, full=False, chk=False):
     """Returns dict(ok, errors, assumptions, obligations, discharged, wall_s, checker_cmd)."""
     t0 = time.time()
     res = {"ok": True, "errors": [], "assumptions": [], "obligations": 0, "discharged": 0,
@@ -353,6 +353,29 @@ def coq_gate(prop_id, full=False):
         elif not os.path.exists(pf):
             res["ok"] = False
             res["errors"].append(f"no property file Props/{prop_id}.v")
+        if chk and res["ok"]:
+            # independent re-check of the compiled statement file and everything it depends on (thorough tier)
+            t1 = time.time()
+            k = subprocess.run(["timeout", "2400", "coqchk", "-silent", "-o", "-Q", "theories", "SA", f"SA.Props.{prop_id}"],
+                               cwd=COQ_DIR, capture_output=True, text=True)
+            out = k.stdout + k.stderr
+            res["coqchk"] = {"cmd": f"coqchk -silent -o -Q theories SA SA.Props.{prop_id}", "rc": k.returncode,
+                             "wall_s": round(time.time() - t1, 1)}
+            if k.returncode != 0:
+                res["ok"] = False
+                res["errors"].append("coqchk failed: " + out[-1200:])
+            else:
+                sec = out[out.find("* Axioms:"):] if "* Axioms:" in out else ""
+                sec = sec[:sec.find("* Constants/Inductives relying on type-in-type")] if sec else ""
+                axs = [ln.strip() for ln in sec.splitlines()[1:] if ln.strip() and ln.strip() != "<none>"]
+                res["coqchk"]["axioms"] = axs
+                for key, lab in (("type-in-type", "type-in-type"), ("unsafe (co)fixpoints", "unsafe fixpoints"),
+                                 ("positivity is assumed", "assumed positivity")):
+                    i = out.find(key)
+                    tail = out[i:i + 200].split("\n")[0] if i >= 0 else ""
+                    if i >= 0 and "<none>" not in tail:
+                        res["ok"] = False
+                        res["errors"].append(f"coqchk reports {lab}: {tail}")
     finally:
         fcntl.flock(lockf, fcntl.LOCK_UN)
         lockf.close()
